@@ -93,6 +93,9 @@ def gen_script(rnd):
                 st, f = "%s * 1\n    %s.assert_lt(1000)" % (x, x), "assert-int(const-one-wire)"
             elif c < 0.86:
                 st, f = "%s + 0\n    %s.val()" % (x, x), "public-output-inside-function"
+            elif c < 0.89:
+                st, f = "%s * 1\n    (%s * %s - %s * %s).assert_zero()\n    (%s * %s - %s * %s).assert_zero()" % (x, x, y, x, y, x, y, x, y), "duplicate-equation"
+                st = "%s * 1\n    _d = %s * %s\n    (_d - %s).assert_eq(_d - %s)\n    (_d - %s).assert_eq(_d - %s)" % (x, x, y, y, y, y, y)
             elif funs and c < 0.95:
                 g, gar, gres = rnd.choice(funs)
                 st = "%s(%s)%s" % (g, ", ".join(rnd.choice(names) for _ in range(gar)), "[0]" if gres > 1 else "")
